@@ -9,7 +9,7 @@ REPO = os.environ.get('VERIF_REPO', '/repo')
 BUILD = os.path.join(ROOT, os.environ.get('VERIF_BUILD_DIR', '.build'))   # alternative build dirs let a scratch copy of the repository be checked in parallel
 RUN_DIR = os.path.join(BUILD, 'run')
 # checks of a scratch copy (VERIF_BUILD_DIR set) must not overwrite the evidence of the real tree
-EVIDENCE_DIR = os.path.join(ROOT, 'evidence' if 'VERIF_BUILD_DIR' not in os.environ else 'evidence-' + os.environ['VERIF_BUILD_DIR'].strip('.'))
+EVIDENCE_DIR = os.environ.get('VERIF_EVIDENCE_DIR') or os.path.join(ROOT, 'evidence' if 'VERIF_BUILD_DIR' not in os.environ else 'evidence-' + os.environ['VERIF_BUILD_DIR'].strip('.'))   # VERIF_EVIDENCE_DIR: development sweeps with other seeds must not overwrite the registered evidence
 # measured in this VM: page-fault bound, throughput saturates at ~8 plain / ~4 ASan processes (DESIGN.md section 11)
 NCPU = int(os.environ.get('VERIF_JOBS', '10'))
 JOBS = {'plain': NCPU, 'asan': int(os.environ.get('VERIF_JOBS_ASAN', '5'))}
@@ -218,7 +218,8 @@ def run_case(case, variant='plain', timeout=None, keep=False):
     for m in UBSAN_RE.finditer(err):
         path = m.group(1)
         if '/Source/' in path or '/verif/' not in path:
-            ub.append('%s:%s %s' % (os.path.basename(path), m.group(2), re.sub(r'-?\d[\d.e+]*', 'N', m.group(4))[:80]))
+            # the site is the *text* of the offending source line, not its number: unrelated edits above it must not change the signature
+            ub.append('%s:[%s] %s' % (os.path.basename(path), _src_line(path, int(m.group(2))), re.sub(r'-?\d[\d.e+]*', 'N', m.group(4))[:80]))
     res['ubsan'] = sorted(set(ub))
     res['simwarn'] = sorted(set(re.findall(r'SIMWARN (.*)', err)))[:10]
     mf = re.search(r'SIMFAULT (\w+) seq=(\d+) pcs=([0-9a-fx,]+)', err)
@@ -232,6 +233,17 @@ def run_case(case, variant='plain', timeout=None, keep=False):
     else:
         shutil.rmtree(d, ignore_errors=True)
     return res
+
+_src_cache = {}
+def _src_line(path, line):
+    """whitespace-free text of a source line (first 70 characters); falls back to the line number when the file cannot be read"""
+    try:
+        if path not in _src_cache:
+            with open(path, errors='replace') as f:
+                _src_cache[path] = f.read().split('\n')
+        return re.sub(r'\s+', '', _src_cache[path][line - 1])[:70]
+    except Exception:
+        return 'line%d' % line
 
 def _site_of_detail(outcome, detail):
     if outcome == 'DEADLOCK':
